@@ -157,6 +157,8 @@ def coq_spec(s):
         return f"(SCountSimilar {coq_names(s['gs'])} {coq_bytes(s['out'])})"
     if k == "dsl":
         return f"(SAcc {coq_bool(s['interp'])} {coq_accname(s['acc'])} {coq_names(s['xs'])})"
+    if k == "pctl-grid":
+        return f"(SPctls {coq_bool(s['interp'])} {coq_list([coq_q(Fraction(p)) for p in s['ps']])} {coq_names(s['xs'])})"
     if k == "fraction":
         return f"(SFraction {coq_names(s['fs'])} {coq_names(s['gs'])} {coq_bool(s['p'])} {coq_bool(s['c'])})"
     if k == "step":
@@ -183,6 +185,8 @@ def coq_spec(s):
 
 def mlr_args(s):
     k = s["verb"]
+    if k == "pctl-grid":
+        return ["-n", "put", "end{print percentiles([%s], [%s], {\"oa\":true%s})}" % (",".join(s["xs"]), ",".join(str(p) for p in s["ps"]), ",\"il\":true" if s["interp"] else "")]
     if k == "dsl":
         return ["--ijsonl", "--ojsonl", "put", "-q", "<DSL_PROG>", json.dumps(s.get("dsl"))]
     if k == "count":
@@ -378,7 +382,9 @@ def oracle(s, recs, rows):
     """None when mlr's output rows equal the first-principles recomputation, else a description of the first difference"""
     k = s["verb"]
     exp = []                                    # list of records: list of (key, expectation)
-    if k == "count":
+    if k == "pctl-grid":
+        exp = [[("p", expect_acc("p%s" % p, s["xs"], s["interp"])) for p in s["ps"]]]
+    elif k == "count":
         if s["gs"] is None:
             exp = [[(s["out"], ("int", len(recs)))]]
         else:
@@ -979,6 +985,78 @@ def check_dsl(ctx, terms, meta, oracle_bad):
         meta.append((s, [], [[("r", t)]]))
 
 
+def check_pctl_grid(ctx, terms, meta, oracle_bad):
+    """deterministic percentile grid: for group sizes n (50, 90, 100, 150 and a few seeded ones) EVERY integer p in 0..100,
+    non-interpolated and interpolated, through the DSL (one percentiles() call per n and form), stats1 and merge-fields,
+    against the exact index floor(p*n/100) / findex p/100*(n-1) (Coq model for the DSL calls, exact-rational oracle for all):
+    a float-rounding deviation of the index for any (p, n) of the grid returns a different element and is reported"""
+    rng = ctx.rng
+    ns = [50, 90, 100, 150] + sorted(rng.sample([k for k in range(2, 201) if k not in (50, 90, 100, 150)], 3 if ctx.tier == "quick" else 25))
+    if ctx.tier != "quick":
+        ns += [170, 180, 200]
+    ps = list(range(0, 101))
+    data = {}
+    for n in ns:
+        xs = [str(3 * i + 1 - n) for i in range(n)]           # distinct ints: the returned element identifies the index
+        rng.shuffle(xs)
+        data[n] = xs
+    # ---- DSL: one mlr process, two lines per n
+    prog = 'print json_stringify(percentiles($xs, $ps, {"oa":true})); print json_stringify(percentiles($xs, $ps, {"oa":true, "il":true}));'
+    inp = "".join('{"xs": [%s], "ps": [%s]}\n' % (", ".join(data[n]), ", ".join(map(str, ps))) for n in ns)
+    st, out, err = mlr_run(ctx, ["--ijsonl", "--ojsonl", "put", "-q", prog], inp.encode(), timeout=120)
+    cls = classify_run(st, err)
+    lines = out.decode("utf-8", "replace").splitlines()
+    ctx.cov["percentile_grid"] = {"group_sizes": ns, "percentiles": "0..100 (integers)", "dsl_status": cls}
+    if cls != "ok" or len(lines) != 2 * len(ns):
+        ctx.violation({"broken": "percentile-grid-dsl-run", "observed": err.decode("utf-8", "replace")[-600:], "lines": len(lines)}, found_input=(cls != "ok"))
+    else:
+        for i, n in enumerate(ns):
+            for interp, line in ((False, lines[2 * i]), (True, lines[2 * i + 1])):
+                vals = json.loads(line, parse_int=str, parse_float=str)
+                row = [("p", v if isinstance(v, str) else json.dumps(v)) for v in vals]
+                s = {"verb": "pctl-grid", "interp": interp, "ps": ps, "xs": data[n]}
+                ctx.count(("pctl-grid", n, interp))
+                ctx.dist("pctl-grid:dsl" + (":il" if interp else ""))
+                d = oracle(s, [], [row])
+                if d is not None:
+                    badj = [j for j, (e, (_, t)) in enumerate(zip(oracle_expect_pctl(s), row)) if not matches(e, t)]
+                    if badj:                         # shrink to the first failing percentile: a one-line command
+                        s1 = dict(s, ps=[ps[badj[0]]])
+                        d1 = oracle(s1, [], [[row[badj[0]]]])
+                        d1.update({"n": n, "all_failing_percentiles_at_this_n": [ps[j] for j in badj]})
+                        oracle_bad.append((s1, [], [[row[badj[0]]]], d1))
+                    else:
+                        oracle_bad.append((s, [], [row], d))
+                terms.append(f"({coq_spec(s)},\n [],\n {coq_obs([row])})")
+                meta.append((s, [], [row]))
+    # ---- stats1 (-a p0..p100, groups of the grid sizes) and merge-fields (one record with n fields), in-process
+    accs = ["p%d" % p for p in ps]
+    recs = []
+    for n in ns[:5]:
+        recs += [[("a", "g%d" % n), ("x", v)] for v in data[n]]
+    rng.shuffle(recs)
+    cases = [({"verb": "stats1", "accs": accs, "fs": ["x"], "gs": ["a"], "interp": False}, recs),
+             ({"verb": "stats1", "accs": accs, "fs": ["x"], "gs": ["a"], "interp": True}, recs)]
+    for n in ns[:4]:
+        names = ["f%d" % i for i in range(n)]
+        cases.append(({"verb": "merge-fields", "mode": "f", "accs": accs, "k": False, "interp": False, "o": "out", "names": names},
+                      [[(nm, v) for nm, v in zip(names, data[n])]]))
+    results = run_impl_batch(ctx, [(mlr_args(s), r) for s, r in cases])
+    for (s, r), (cls, rows, err) in zip(cases, results):
+        ctx.count(("pctl-grid", s["verb"], s["interp"], len(r)))
+        ctx.dist("pctl-grid:" + s["verb"] + (":i" if s["interp"] else ""))
+        if cls != "ok":
+            ctx.violation({"broken": "percentile-grid-verb-run", "args": mlr_args(s)[:6], "observed": err}, found_input=True)
+            continue
+        d = oracle(s, r, rows)
+        if d is not None:
+            oracle_bad.append((s, r, rows, d))
+
+
+def oracle_expect_pctl(s):
+    return [expect_acc("p%s" % p, s["xs"], s["interp"]) for p in s["ps"]]
+
+
 def probe_known(ctx):
     """witnesses of the defects this check has found on the unchanged tree (classes listed in c10.findings.md); each is re-probed on every run"""
     # 1. interpolated percentile outside 0..100 indexes past the end of the array
@@ -1061,6 +1139,8 @@ def run(ctx):
                        "1/1.0/01 and values containing the joiner ','; value fields x,y,z missing with p=0.15; profiles: small dyadic decimals+ints "
                        "(moment statistics), wide ints up to 2^61 (exact int arithmetic), text (counting/mode/min/max on strings)) x verbs count, uniq -g [-c|-n], "
                        "count-distinct [-n|-u], count-similar, stats1 [-i] [-w n] with 1..5 accumulators incl. percentiles p0..p100 in steps of 0.5 (model + oracle); "
+                       "deterministic percentile grid: group sizes 50, 90, 100, 150 + seeded ones x every integer p in 0..100 x {plain, interpolated} through DSL percentiles() "
+                       "(model + oracle), stats1 -a p0..p100 and merge-fields (oracle); "
                        "fill-down, most/least-frequent, fraction, top (oracle only); DSL statistics functions on numeric arrays incl. percentile(s)/median with options and p outside 0..100 (model + oracle); "
                        "compared: every output record (field names, order, values: ints/text exact, order statistics exact, floats as exact rationals within 1e-9) "
                        "between mlr and the Coq model under vm_compute, and against the Python first-principles oracle")
@@ -1114,6 +1194,7 @@ def run(ctx):
         ctx.cov["cli_cross_checked"] = n_cli
     with ctx.timed("dsl"):
         check_dsl(ctx, terms, meta, oracle_bad)
+        check_pctl_grid(ctx, terms, meta, oracle_bad)
         probe_known(ctx)
     ctx.cov["oracle"] = {"cases": len(meta), "disagreements": len(oracle_bad)}
     if not ok:
@@ -1133,6 +1214,10 @@ def run(ctx):
     reported = 0
     for i in bad[:40]:
         s, recs, rows = meta[i]
+        if s["verb"] == "pctl-grid" and len(s["ps"]) > 1:      # shrink to the first percentile the oracle rejects
+            badj = [j for j, (e, (_, t)) in enumerate(zip(oracle_expect_pctl(s), rows[0])) if not matches(e, t)]
+            if badj:
+                s, rows = dict(s, ps=[s["ps"][badj[0]]]), [[rows[0][badj[0]]]]
         d = oracle(s, recs, rows)
         rep = {"broken": "correspondence C10.Harness.chk", "args": mlr_args(s), "input": dkvp(recs, ";", ":").decode(), "observed": rows, "spec": s}
         if d is not None:
